@@ -1,7 +1,7 @@
 /-
-Proofs about Quote.lean (C11 b): the printers and the unquoters are inverse on every byte
-string — through `strconv.Unquote` always, through quote.go's composition exactly when the blind
-`\'` / `\"` replacement finds nothing to damage (D16).
+Proofs about Quote.lean (C11 b): the printers and the unquoters are inverse on EVERY byte
+string — `strconv.Unquote` undoes the `"`-printer, and quote.go's `requote` turns what any of the
+four printers writes into what the `"`-printer writes.
 -/
 import ThriftVerif.Idl.Quote
 
@@ -113,407 +113,109 @@ theorem strconvUnquote_quoteDouble (s : Bytes) : strconvUnquote (quoteDouble s) 
   have := quoteBody_length_ge 34 false s
   simp; omega
 
-/-! ### quote.go's blind replacement -/
+/-! ### quote.go `requote` -/
 
-/-- no `\` directly followed by `q` (with the byte `a` held, as `ueGo` holds it). -/
-def noPairGo (q : UInt8) (a : UInt8) : Bytes → Bool
-  | [] => true
-  | b :: r => !(a == 92 && b == q) && noPairGo q b r
+theorem requoteBody_esc (e : UInt8) (R : Bytes) :
+    requoteBody (92 :: e :: R) = if e = 39 then 39 :: requoteBody R else 92 :: e :: requoteBody R := by
+  simp [requoteBody]
 
-/-- `s` has no backslash directly followed by `q` — what D16 needs to do damage. -/
-def noPair (q : UInt8) : Bytes → Bool
-  | [] => true
-  | a :: t => noPairGo q a t
+theorem requoteBody_dq (R : Bytes) : requoteBody (34 :: R) = 92 :: 34 :: requoteBody R := by
+  cases R <;> simp [requoteBody]
 
-theorem ueGo_cons (q a b : UInt8) (r : Bytes) :
-    ueGo q a (b :: r) = if a = 92 ∧ b = q then q :: unescapeQuotes q r else a :: ueGo q b r := by
-  cases r <;> simp [ueGo, unescapeQuotes]
+theorem requoteBody_plain (c : UInt8) (R : Bytes) (h1 : c ≠ 92) (h2 : c ≠ 34) (h3 : ¬ (0x80 ≤ c)) :
+    requoteBody (c :: R) = c :: requoteBody R := by
+  cases R <;> simp [requoteBody, h1, h2, h3]
 
-theorem ueGo_id (q : UInt8) : ∀ (t : Bytes) (a : UInt8), noPairGo q a t = true → ueGo q a t = a :: t := by
-  intro t
-  induction t with
-  | nil => intro a _; rfl
-  | cons b r ih =>
-    intro a h
-    simp only [noPairGo, Bool.and_eq_true, Bool.not_eq_true', Bool.and_eq_false_iff, beq_eq_false_iff_ne] at h
-    have hn : ¬ (a = 92 ∧ b = q) := by
-      rintro ⟨h1, h2⟩; rcases h.1 with h3 | h3 <;> contradiction
-    rw [ueGo_cons, if_neg hn, ih b h.2]
+/-- a printed piece `p` and what `requote` makes of it. -/
+def requoteOk (p p' : Bytes) : Bool :=
+  match p with
+  | [c] => if c == 34 then p' == [92, 34] else c != 92 && !(decide (0x80 ≤ c)) && p' == [c]
+  | [a, e] => a == 92 && (if e == 39 then p' == [39] else p' == [92, e])
+  | [a, x, h1, h2] =>
+    a == 92 && x != 39 && h1 != 92 && h1 != 34 && !(decide (0x80 ≤ h1)) &&
+      h2 != 92 && h2 != 34 && !(decide (0x80 ≤ h2)) && p' == [a, x, h1, h2]
+  | _ => false
 
-theorem unescapeQuotes_id (q : UInt8) (t : Bytes) (h : noPair q t = true) : unescapeQuotes q t = t := by
-  cases t with
-  | nil => rfl
-  | cons a t => exact ueGo_id q t a h
-
-theorem noPairGo_of_ne (q a : UInt8) (t : Bytes) (h : a ≠ 92) : noPairGo q a t = noPairGo q 0 t := by
-  cases t with
-  | nil => rfl
-  | cons b r => simp [noPairGo, h]
-
-theorem noPairGo_append (q : UInt8) : ∀ (p : Bytes) (a : UInt8) (R : Bytes),
-    noPairGo q a (p ++ R) = (noPairGo q a p && noPairGo q ((a :: p).getLast (by simp)) R) := by
-  intro p
-  induction p with
-  | nil => intro a R; simp [noPairGo]
-  | cons b r ih =>
-    intro a R
-    simp only [List.cons_append, noPairGo, ih b R, Bool.and_assoc]
-    congr 2
-
-/-- the two (delimiter, other quote) pairs. -/
-def QuotePair (q q' : UInt8) : Prop := (q = 34 ∧ q' = 39) ∨ (q = 39 ∧ q' = 34)
+theorem requoteBody_piece {p p' : Bytes} (h : requoteOk p p' = true) (R : Bytes) :
+    requoteBody (p ++ R) = p' ++ requoteBody R := by
+  unfold requoteOk at h
+  split at h
+  · rename_i c
+    by_cases hc : c = 34
+    · subst hc
+      simp only [beq_self_eq_true, if_true, beq_iff_eq] at h
+      subst h
+      exact requoteBody_dq R
+    · have hc' : (c == 34) = false := by simpa using hc
+      simp only [hc', Bool.false_eq_true, if_false, Bool.and_eq_true, bne_iff_ne, ne_eq, beq_iff_eq,
+        Bool.not_eq_true', decide_eq_false_iff_not] at h
+      obtain ⟨⟨h1, h3⟩, rfl⟩ := h
+      exact requoteBody_plain c R h1 hc h3
+  · rename_i a e
+    simp only [Bool.and_eq_true, beq_iff_eq] at h
+    obtain ⟨rfl, h2⟩ := h
+    simp only [List.cons_append, List.nil_append]
+    rw [requoteBody_esc]
+    by_cases he : e = 39
+    · subst he
+      simp at h2
+      subst h2; simp
+    · simp [he] at h2
+      subst h2; simp [he]
+  · rename_i a x h1 h2
+    simp only [Bool.and_eq_true, bne_iff_ne, ne_eq, beq_iff_eq, Bool.not_eq_true',
+      decide_eq_false_iff_not] at h
+    obtain ⟨⟨⟨⟨⟨⟨⟨⟨rfl, hx⟩, a1⟩, a2⟩, a3⟩, b1⟩, b2⟩, b3⟩, rfl⟩ := h
+    simp only [List.cons_append, List.nil_append]
+    rw [requoteBody_esc, if_neg hx, requoteBody_plain h1 _ a1 a2 a3, requoteBody_plain h2 _ b1 b2 b3]
+  · cases h
 
 set_option maxRecDepth 100000 in
-theorem piece_noPair_d : ∀ c : UInt8, noPairGo 39 0 (quoteByte 34 false c) = true ∧
-    (c ≠ 39 → noPairGo 39 92 (quoteByte 34 false c) = true) ∧
-    ((92 :: quoteByte 34 false c).getLast (by simp) = 92 → c = 92) := by
+/-- whatever printer wrote the byte, `requote` turns the piece into the `"`-printer's piece. -/
+theorem quoteByte_requoteOk : ∀ c : UInt8,
+    requoteOk (quoteByte 34 false c) (quoteByte 34 false c) = true ∧
+    requoteOk (quoteByte 34 true c) (quoteByte 34 false c) = true ∧
+    requoteOk (quoteByte 39 false c) (quoteByte 34 false c) = true ∧
+    requoteOk (quoteByte 39 true c) (quoteByte 34 false c) = true := by
   apply forall_uint8; decide
 
-set_option maxRecDepth 100000 in
-theorem piece_noPair_s : ∀ c : UInt8, noPairGo 34 0 (quoteByte 39 false c) = true ∧
-    (c ≠ 34 → noPairGo 34 92 (quoteByte 39 false c) = true) ∧
-    ((92 :: quoteByte 39 false c).getLast (by simp) = 92 → c = 92) := by
-  apply forall_uint8; decide
-
-theorem quoteByte_ne_nil (q : UInt8) (esc : Bool) (c : UInt8) : quoteByte q esc c ≠ [] := by
-  unfold quoteByte
-  repeat' split
-  all_goals simp
-
-theorem getLast_cons_of_ne_nil (a : UInt8) (p : Bytes) (h : p ≠ []) :
-    (a :: p).getLast (by simp) = (92 :: p).getLast (by simp) := by
-  cases p with
-  | nil => contradiction
-  | cons b r => simp [List.getLast_cons]
-
-/-- the natural printers never produce a `\`+other-quote pair unless the string has one. -/
-theorem noPair_render {q q' : UInt8} (hq : QuotePair q q') : ∀ (s : Bytes) (a : UInt8),
-    noPair q' s = true → (a = 92 → s.head? ≠ some q') →
-    noPairGo q' a (quoteBody q false s ++ [q]) = true := by
-  intro s
+theorem requoteBody_quoteBody (q : UInt8) (esc : Bool) (hq : q = 34 ∨ q = 39) (s : Bytes) :
+    requoteBody (quoteBody q esc s) = quoteBody 34 false s := by
   induction s with
-  | nil =>
-    intro a _ _
-    rcases hq with ⟨rfl, rfl⟩ | ⟨rfl, rfl⟩ <;> simp [quoteBody, noPairGo]
+  | nil => rfl
   | cons c cs ih =>
-    intro a hs ha
-    simp only [quoteBody, List.append_assoc]
-    rw [noPairGo_append, Bool.and_eq_true]
-    have hfacts : noPairGo q' 0 (quoteByte q false c) = true ∧
-        (c ≠ q' → noPairGo q' 92 (quoteByte q false c) = true) ∧
-        ((92 :: quoteByte q false c).getLast (by simp) = 92 → c = 92) := by
-      rcases hq with ⟨rfl, rfl⟩ | ⟨rfl, rfl⟩
-      · exact piece_noPair_d c
-      · exact piece_noPair_s c
-    constructor
-    · by_cases h92 : a = 92
-      · subst h92
-        apply hfacts.2.1
-        intro hc; apply ha rfl; simp [hc]
-      · rw [noPairGo_of_ne _ _ _ h92]; exact hfacts.1
-    · rw [getLast_cons_of_ne_nil a _ (quoteByte_ne_nil q false c)]
-      apply ih
-      · -- noPair q' cs
-        cases cs with
-        | nil => rfl
-        | cons d ds =>
-          simp only [noPair, noPairGo, Bool.and_eq_true] at hs
-          exact hs.2
-      · intro hl
-        have hc := hfacts.2.2 hl
-        subst hc
-        cases cs with
-        | nil => simp
-        | cons d ds =>
-          simp only [noPair, noPairGo, Bool.and_eq_true, Bool.not_eq_true', Bool.and_eq_false_iff,
-            beq_eq_false_iff_ne] at hs
-          rcases hs.1 with h | h
-          · exact absurd rfl h
-          · simpa using h
+    have hok : requoteOk (quoteByte q esc c) (quoteByte 34 false c) = true := by
+      obtain ⟨h1, h2, h3, h4⟩ := quoteByte_requoteOk c
+      rcases hq with rfl | rfl <;> cases esc <;> assumption
+    simp only [quoteBody]
+    rw [requoteBody_piece hok, ih]
 
-theorem noPair_quote {q q' : UInt8} (hq : QuotePair q q') (s : Bytes) (h : noPair q' s = true) :
-    noPair q' (q :: (quoteBody q false s ++ [q])) = true := by
-  apply noPair_render hq s q h
-  intro h92
-  rcases hq with ⟨rfl, rfl⟩ | ⟨rfl, rfl⟩ <;> cases h92
+/-- `requote` turns the output of each of the four printers into the `"`-printer's output. -/
+theorem requote_quoted (q : UInt8) (esc : Bool) (hq : q = 34 ∨ q = 39) (s : Bytes) :
+    requote q (q :: (quoteBody q esc s ++ [q])) = quoteDouble s := by
+  simp only [requote, List.getLast?_append, List.getLast?_singleton, Option.some_or, true_and,
+    if_true, List.dropLast_concat, requoteBody_quoteBody q esc hq s, quoteDouble]
 
-/-- `UnquoteDoubleQuoted (quoteDouble s) = s` unless `s` has a backslash directly before an apostrophe. -/
-theorem unquoteDouble_quoteDouble (s : Bytes) (h : noPair 39 s = true) :
-    unquoteDouble (quoteDouble s) = some s := by
+/-- `UnquoteDoubleQuoted (quoteDouble s) = s` for EVERY byte string. -/
+theorem unquoteDouble_quoteDouble (s : Bytes) : unquoteDouble (quoteDouble s) = some s := by
   unfold unquoteDouble
-  rw [show quoteDouble s = 34 :: (quoteBody 34 false s ++ [34]) from rfl,
-    unescapeQuotes_id 39 _ (noPair_quote (Or.inl ⟨rfl, rfl⟩) s h)]
+  rw [show quoteDouble s = 34 :: (quoteBody 34 false s ++ [34]) from rfl, requote_quoted 34 false (Or.inl rfl)]
   exact strconvUnquote_quoteDouble s
 
-/-! ### single quotes: swap, unquote as a double-quoted string, swap back -/
-
-set_option maxRecDepth 100000 in
-theorem swap_quoteByte : ∀ c : UInt8,
-    (quoteByte 39 false c).map swapQuote = quoteByte 34 false (swapQuote c) := by
-  apply forall_uint8; decide
-
-theorem swap_quoteBody (s : Bytes) :
-    swapQuotes (quoteBody 39 false s) = quoteBody 34 false (swapQuotes s) := by
-  induction s with
-  | nil => rfl
-  | cons c cs ih =>
-    simp only [swapQuotes, quoteBody, List.map_append, List.map_cons] at ih ⊢
-    rw [swap_quoteByte, ih]
-
-theorem swapQuote_swapQuote (c : UInt8) : swapQuote (swapQuote c) = c := by
-  unfold swapQuote
-  repeat' split
-  all_goals simp_all
-
-theorem swapQuotes_swapQuotes (s : Bytes) : swapQuotes (swapQuotes s) = s := by
-  simp [swapQuotes, List.map_map, Function.comp_def, swapQuote_swapQuote]
-
-theorem swap_quoteSingle (s : Bytes) : swapQuotes (quoteSingle s) = quoteDouble (swapQuotes s) := by
-  have := swap_quoteBody s
-  simp only [swapQuotes] at this
-  simp [quoteSingle, quoteDouble, swapQuotes, swapQuote, this]
-
-/-- `UnquoteSingleQuoted (quoteSingle s) = s` unless `s` has a backslash directly before a double quote. -/
-theorem unquoteSingle_quoteSingle (s : Bytes) (h : noPair 34 s = true) :
-    unquoteSingle (quoteSingle s) = some s := by
-  unfold unquoteSingle
-  rw [show quoteSingle s = 39 :: (quoteBody 39 false s ++ [39]) from rfl,
-    unescapeQuotes_id 34 _ (noPair_quote (Or.inr ⟨rfl, rfl⟩) s h)]
-  rw [show (39 :: (quoteBody 39 false s ++ [39]) : Bytes) = quoteSingle s from rfl, swap_quoteSingle,
-    strconvUnquote_quoteDouble]
-  simp [swapQuotes_swapQuotes]
-
-/-! ### the printers that escape both quote characters round-trip on every byte string -/
-
-theorem ueGo_prefix (q : UInt8) : ∀ (P : Bytes) (a x : UInt8) (xr : Bytes),
-    noPairGo q a (P ++ [x]) = true → ueGo q a (P ++ x :: xr) = a :: (P ++ unescapeQuotes q (x :: xr)) := by
-  intro P
-  induction P with
-  | nil =>
-    intro a x xr h
-    simp only [List.nil_append, noPairGo, Bool.and_eq_true, Bool.not_eq_true', Bool.and_eq_false_iff,
-      beq_eq_false_iff_ne] at h
-    have hn : ¬ (a = 92 ∧ x = q) := by
-      rintro ⟨h1, h2⟩; rcases h.1 with h3 | h3 <;> contradiction
-    simp [ueGo_cons, hn, unescapeQuotes]
-  | cons b P' ih =>
-    intro a x xr h
-    simp only [List.cons_append, noPairGo, Bool.and_eq_true, Bool.not_eq_true', Bool.and_eq_false_iff,
-      beq_eq_false_iff_ne] at h
-    have hn : ¬ (a = 92 ∧ b = q) := by
-      rintro ⟨h1, h2⟩; rcases h.1 with h3 | h3 <;> contradiction
-    simp only [List.cons_append]
-    rw [ueGo_cons, if_neg hn, ih b x xr h.2]
-
-set_option maxRecDepth 100000 in
-/-- pieces of the safe `"`-printer: either the escaped apostrophe, or the natural piece, which has
-no `\'` inside, and ends in a backslash only for `\\`; it never starts with an apostrophe. -/
-theorem piece_safe_d : ∀ c : UInt8,
-    ((c = 39 ∧ quoteByte 34 true c = [92, 39] ∧ quoteByte 34 false c = [39]) ∨
-     (quoteByte 34 true c = quoteByte 34 false c ∧ noPair 39 (quoteByte 34 false c ++ [0]) = true)) ∧
-    (quoteByte 34 true c).head? ≠ some 39 := by
-  apply forall_uint8; decide
-
-set_option maxRecDepth 100000 in
-theorem piece_safe_s : ∀ c : UInt8,
-    ((c = 34 ∧ quoteByte 39 true c = [92, 34] ∧ quoteByte 39 false c = [34]) ∨
-     (quoteByte 39 true c = quoteByte 39 false c ∧ noPair 34 (quoteByte 39 false c ++ [0]) = true)) ∧
-    (quoteByte 39 true c).head? ≠ some 34 := by
-  apply forall_uint8; decide
-
-theorem noPairGo_last_irrelevant (q : UInt8) : ∀ (P : Bytes) (a x : UInt8),
-    noPairGo q a (P ++ [0]) = true → x ≠ q → noPairGo q a (P ++ [x]) = true := by
-  intro P
-  induction P with
-  | nil =>
-    intro a x _ hx
-    simp [noPairGo, hx]
-  | cons b P' ih =>
-    intro a x h hx
-    simp only [List.cons_append, noPairGo, Bool.and_eq_true] at h ⊢
-    exact ⟨h.1, ih b x h.2 hx⟩
-
-theorem head_safe {q q' : UInt8} (hq : QuotePair q q') (s : Bytes) :
-    (quoteBody q true s ++ [q]).head? ≠ some q' := by
-  cases s with
-  | nil => rcases hq with ⟨rfl, rfl⟩ | ⟨rfl, rfl⟩ <;> simp [quoteBody]
-  | cons c cs =>
-    have hne := quoteByte_ne_nil q true c
-    have hh : (quoteByte q true c).head? ≠ some q' := by
-      rcases hq with ⟨rfl, rfl⟩ | ⟨rfl, rfl⟩
-      · exact (piece_safe_d c).2
-      · exact (piece_safe_s c).2
-    simp only [quoteBody, List.append_assoc]
-    cases hp : quoteByte q true c with
-    | nil => exact absurd hp hne
-    | cons p0 pr => rw [hp] at hh; simpa using hh
-
-/-- quote.go's replacement turns the safe rendering into the natural one. -/
-theorem unescape_safe {q q' : UInt8} (hq : QuotePair q q') : ∀ s : Bytes,
-    unescapeQuotes q' (quoteBody q true s ++ [q]) = quoteBody q false s ++ [q] := by
-  intro s
-  induction s with
-  | nil => simp [quoteBody, unescapeQuotes, ueGo]
-  | cons c cs ih =>
-    simp only [quoteBody, List.append_assoc]
-    -- the rest of the rendering is non-empty and does not start with the other quote
-    have hhead := head_safe hq cs
-    cases hR : quoteBody q true cs ++ [q] with
-    | nil => simp at hR
-    | cons x xr =>
-      rw [hR] at hhead ih
-      have hx : x ≠ q' := by simpa using hhead
-      have hfacts : ((c = q' ∧ quoteByte q true c = [92, q'] ∧ quoteByte q false c = [q']) ∨
-          (quoteByte q true c = quoteByte q false c ∧ noPair q' (quoteByte q false c ++ [0]) = true)) := by
-        rcases hq with ⟨rfl, rfl⟩ | ⟨rfl, rfl⟩
-        · exact (piece_safe_d c).1
-        · exact (piece_safe_s c).1
-      rcases hfacts with ⟨_, ht, hf⟩ | ⟨ht, hnp⟩
-      · rw [ht, hf]
-        simp only [List.cons_append, List.nil_append, unescapeQuotes]
-        rw [ueGo_cons, if_pos ⟨rfl, rfl⟩, ih]
-      · rw [ht]
-        cases hp : quoteByte q false c with
-        | nil => exact absurd hp (quoteByte_ne_nil q false c)
-        | cons p0 pr =>
-          rw [hp] at hnp
-          simp only [List.cons_append, unescapeQuotes]
-          rw [ueGo_prefix q' pr p0 x xr (noPairGo_last_irrelevant q' pr p0 x (by simpa [noPair] using hnp) hx), ih]
-
-theorem unescape_safe_quoted {q q' : UInt8} (hq : QuotePair q q') (s : Bytes) :
-    unescapeQuotes q' (q :: (quoteBody q true s ++ [q])) = q :: (quoteBody q false s ++ [q]) := by
-  have h := unescape_safe hq s
-  cases hR : quoteBody q true s ++ [q] with
-  | nil => simp at hR
-  | cons x xr =>
-    rw [hR] at h
-    have hq92 : q ≠ 92 := by rcases hq with ⟨rfl, _⟩ | ⟨rfl, _⟩ <;> decide
-    simp only [unescapeQuotes] at h ⊢
-    rw [ueGo_cons, if_neg (fun hh => hq92 hh.1), h]
-
-/-- `UnquoteDoubleQuoted (quoteDoubleSafe s) = s` for EVERY byte string. -/
 theorem unquoteDouble_quoteDoubleSafe (s : Bytes) : unquoteDouble (quoteDoubleSafe s) = some s := by
   unfold unquoteDouble quoteDoubleSafe
-  rw [unescape_safe_quoted (Or.inl ⟨rfl, rfl⟩)]
+  rw [requote_quoted 34 true (Or.inl rfl)]
   exact strconvUnquote_quoteDouble s
 
-/-- `UnquoteSingleQuoted (quoteSingleSafe s) = s` for EVERY byte string. -/
+/-- `UnquoteSingleQuoted (quoteSingle s) = s` for EVERY byte string. -/
+theorem unquoteSingle_quoteSingle (s : Bytes) : unquoteSingle (quoteSingle s) = some s := by
+  unfold unquoteSingle quoteSingle
+  rw [requote_quoted 39 false (Or.inr rfl)]
+  exact strconvUnquote_quoteDouble s
+
 theorem unquoteSingle_quoteSingleSafe (s : Bytes) : unquoteSingle (quoteSingleSafe s) = some s := by
   unfold unquoteSingle quoteSingleSafe
-  rw [unescape_safe_quoted (Or.inr ⟨rfl, rfl⟩)]
-  rw [show (39 :: (quoteBody 39 false s ++ [39]) : Bytes) = quoteSingle s from rfl, swap_quoteSingle,
-    strconvUnquote_quoteDouble]
-  simp [swapQuotes_swapQuotes]
-
-/-! ### the exclusion is exact: with a backslash directly before an apostrophe the round trip fails -/
-
-theorem quoteBody_append (q : UInt8) (esc : Bool) (a b : Bytes) :
-    quoteBody q esc (a ++ b) = quoteBody q esc a ++ quoteBody q esc b := by
-  induction a with
-  | nil => rfl
-  | cons c cs ih => simp [quoteBody, ih]
-
-theorem unqLoop_prefix : ∀ (u : Bytes) (f : Nat) (Z : Bytes),
-    unqLoop (f + u.length) (quoteBody 34 false u ++ Z) = (unqLoop f Z).map (u ++ ·) := by
-  intro u
-  induction u with
-  | nil => intro f Z; simp [quoteBody]
-  | cons c cs ih =>
-    intro f Z
-    simp only [quoteBody, List.append_assoc, List.length_cons]
-    rw [show f + (cs.length + 1) = (f + cs.length) + 1 from by omega, unqLoop_shape (quoteByte_shape c), ih]
-    cases unqLoop f Z <;> simp
-
-theorem unqLoop_bad_escape (f : Nat) (Y : Bytes) : unqLoop (f + 1) (92 :: 39 :: Y) = none := by
-  have : simpleEscape 39 = none := by decide
-  have h2 : isOctDigit 39 = false := by decide
-  simp [unqLoop, this, h2]
-
-/-- the first backslash-quote pair of a string that has one. -/
-theorem exists_first_pair (q : UInt8) : ∀ (s : Bytes) (a : UInt8), noPairGo q a s = false →
-    (a = 92 ∧ s.head? = some q) ∨
-    ∃ u v, s = u ++ 92 :: q :: v ∧ noPairGo q a (u ++ [92]) = true := by
-  intro s
-  induction s with
-  | nil => intro a h; simp [noPairGo] at h
-  | cons b r ih =>
-    intro a h
-    by_cases hp : a = 92 ∧ b = q
-    · exact Or.inl ⟨hp.1, by simp [hp.2]⟩
-    · have hpair : (a == 92 && b == q) = false := by
-        cases ha : (a == 92) <;> cases hb : (b == q) <;> simp_all
-      have hh : noPairGo q b r = false := by
-        simp only [noPairGo, hpair, Bool.not_false, Bool.true_and] at h
-        exact h
-      right
-      rcases ih b hh with ⟨hb, hr⟩ | ⟨u, v, hs, hu⟩
-      · cases r with
-        | nil => simp at hr
-        | cons c r' =>
-          simp only [List.head?_cons, Option.some.injEq] at hr
-          subst hb hr
-          exact ⟨[], r', rfl, by simp [noPairGo, hpair]⟩
-      · refine ⟨b :: u, v, by simp [hs], ?_⟩
-        simp only [List.cons_append, noPairGo, hpair, Bool.not_false, Bool.true_and]
-        exact hu
-
-theorem noPairGo_prefix (q : UInt8) (a : UInt8) (A B : Bytes) (h : noPairGo q a (A ++ B) = true) :
-    noPairGo q a A = true := by
-  rw [noPairGo_append, Bool.and_eq_true] at h
-  exact h.1
-
-/-- D16, in general: if `s` has a backslash directly before an apostrophe, `UnquoteDoubleQuoted`
-rejects what the natural printer wrote. -/
-theorem unquoteDouble_quoteDouble_fails (s : Bytes) (h : noPair 39 s = false) :
-    unquoteDouble (quoteDouble s) = none := by
-  -- locate the first pair
-  have hex : ∃ u v, s = u ++ 92 :: 39 :: v ∧ noPair 39 (u ++ [92]) = true := by
-    cases s with
-    | nil => simp [noPair] at h
-    | cons a t =>
-      rcases exists_first_pair 39 t a h with ⟨ha, ht⟩ | ⟨u, v, ht, hu⟩
-      · cases t with
-        | nil => simp at ht
-        | cons c t' =>
-          simp only [List.head?_cons, Option.some.injEq] at ht
-          exact ⟨[], t', by simp [ha, ht], by simp [noPair, noPairGo]⟩
-      · exact ⟨a :: u, v, by simp [ht], by simpa [noPair] using hu⟩
-  obtain ⟨u, v, hs, hu⟩ := hex
-  subst hs
-  -- the rendering around the pair
-  have hrender : quoteDouble (u ++ 92 :: 39 :: v) =
-      34 :: ((quoteBody 34 false u ++ [92]) ++ 92 :: (39 :: (quoteBody 34 false v ++ [34]))) := by
-    simp [quoteDouble, quoteBody_append, quoteBody, quoteByte]
-  have hnp : noPairGo 39 34 ((quoteBody 34 false u ++ [92]) ++ [92]) = true := by
-    have := noPair_quote (q := 34) (q' := 39) (Or.inl ⟨rfl, rfl⟩) (u ++ [92]) hu
-    simp only [noPair, quoteBody_append, quoteBody, quoteByte, List.append_assoc] at this
-    apply noPairGo_prefix 39 34 _ [34]
-    simpa using this
-  unfold unquoteDouble
-  rw [hrender]
-  simp only [unescapeQuotes]
-  rw [ueGo_prefix 39 _ 34 92 _ hnp]
-  simp only [unescapeQuotes]
-  rw [ueGo_cons, if_pos ⟨rfl, rfl⟩]
-  simp only [strconvUnquote, List.append_assoc, List.cons_append, List.nil_append]
-  have hlen : ∃ f, (quoteBody 34 false u ++ 92 :: 39 :: unescapeQuotes 39 (quoteBody 34 false v ++ [34])).length + 1
-      = (f + 1) + u.length := by
-    have := quoteBody_length_ge 34 false u
-    refine ⟨(quoteBody 34 false u).length - u.length + (unescapeQuotes 39 (quoteBody 34 false v ++ [34])).length + 2, ?_⟩
-    simp; omega
-  obtain ⟨f, hf⟩ := hlen
-  rw [hf, unqLoop_prefix, unqLoop_bad_escape]
-  rfl
-
-/-- `UnquoteDoubleQuoted ∘ quoteDouble` is the identity EXACTLY on the strings without a
-backslash directly before an apostrophe. -/
-theorem unquoteDouble_quoteDouble_iff (s : Bytes) :
-    unquoteDouble (quoteDouble s) = some s ↔ noPair 39 s = true := by
-  constructor
-  · intro h
-    cases hn : noPair 39 s with
-    | true => rfl
-    | false => rw [unquoteDouble_quoteDouble_fails s hn] at h; cases h
-  · exact unquoteDouble_quoteDouble s
+  rw [requote_quoted 39 true (Or.inr rfl)]
+  exact strconvUnquote_quoteDouble s
 
 end ThriftVerif.Idl
